@@ -672,3 +672,92 @@ def r7_5(rep):
                         rep.check(pos[wpath] < pos[mp], "%s-after-%s" % (a.name, wan),
                                   "%s reads `%s` (via %s), which %s fills; it must be computed earlier in BindgenContext::gen" %
                                   (a.name, field, sorted(hit)[0].split("::")[-1], wpath.split("::")[-1]), gen.loc(gen.root))
+
+
+def bottom_variant(a):
+    """The lattice bottom of an analysis with an `insert(id, value)` helper: the value for which insert stores nothing."""
+    ins = a.methods.get("insert")
+    if ins is None:
+        return None
+    for n in ins.walk():
+        if n["k"] == "If":
+            c = strip(n["cond"])
+            if c.get("k") == "LetCond" and ins.diverges(n["then"]):
+                vs = [v for v in pat_variants(c["pat"]) if "::" in v]
+                rets = [x for x in ins.walk(n["then"]) if x["k"] == "Ret" and "e" in x and ins.canon(x["e"], 2) == CR + "Same"]
+                if vs and rets:
+                    return vs[0]
+    return None
+
+
+@RULES.rule("R7.6", "the worklist starts from every node; results are published unfiltered; a missing entry reads as the lattice bottom", floor=14)
+def r7_6(rep):
+    prog = rep.prog
+    CTX = "ir::context::BindgenContext"
+    ans = analyses(rep)
+    bottoms = {}
+    for a in ans:
+        iw = a.methods.get("initial_worklist")
+        if iw is None:
+            rep.bad("%s:initial_worklist" % a.name, "missing")
+            continue
+        src = iw.canon(iw.root.get("tail") or iw.root, 14)
+        lossy = re.findall(r"::(skip|take|step_by|filter|take_while|skip_while|rev|nth|last|find)\(", src)
+        fm_ok = True
+        for c in iw.calls(lambda n: n["k"] == "MCall" and n["name"] == "filter_map"):
+            clo = strip(c["args"][0])
+            body = strip(clo["body"]) if clo.get("k") == "Closure" else {}
+            fm_ok = fm_ok and body.get("k") == "MCall" and body.get("name") == "as_type_id"
+        rep.check("BindgenContext::allowlisted_items" in src and not lossy and fm_ok, "%s:initial-worklist-complete" % a.name,
+                  "the initial worklist is every allowlisted item%s (found %s)" % (" (types only, via as_type_id)" if not fm_ok or "filter_map" in src else "", src[:140]),
+                  iw.loc(iw.root))
+        fr = a.methods.get("from")
+        if fr is not None:
+            t = strip(fr.root.get("tail") or {})
+            ok = t.get("k") == "Field" and t.get("adt") == a.adt and t["f"] in a.state
+            if not ok:
+                s = fr.canon(t, 10)
+                ok = any(("::" + f) in s for f in a.state) and not re.search(r"::(filter|filter_map|skip|take|retain)\(", s)
+            rep.check(ok, "%s:result-published-unfiltered" % a.name, "the analysis output is its whole state", fr.loc(fr.root))
+        bv = bottom_variant(a)
+        if bv:
+            bottoms[a.name] = bv
+            rep.ok("%s:bottom=%s" % (a.name, bv.split("::")[-1]))
+    # lookups with a default
+    writers = {}
+    for b in prog.methods_of(CTX):
+        an = None
+        for c in b.calls(lambda n: n["k"] == "Call" and (n.get("callee") or "") == "ir::analysis::analyze"):
+            m = re.search(r"analysis::\w+::(\w+)", c.get("gargs", ""))
+            an = m.group(1) if m else None
+        if an:
+            for n in b.walk():
+                if n["k"] == "Assign" and strip(n["l"]).get("k") == "Field" and strip(n["l"]).get("adt") == CTX:
+                    writers[strip(n["l"])["f"]] = an
+    nlook = 0
+    for b in prog.methods_of(CTX):
+        for c in b.calls(lambda n: n["k"] == "MCall" and n["name"] in ("unwrap_or", "unwrap_or_default", "unwrap_or_else")):
+            r = root_field(c["recv"])
+            if not r or r.get("adt") != CTX or r["f"] not in writers:
+                continue
+            an = writers[r["f"]]
+            if an not in bottoms:
+                continue
+            nlook += 1
+            got = b.canon(c["args"][0], 3) if c["args"] else "<Default>"
+            rep.check(got == bottoms[an], "lookup-default:%s" % r["f"],
+                      "a type without an entry in `%s` reads as `%s`; the analysis stores nothing for its bottom value `%s`" % (r["f"], got, bottoms[an]),
+                      b.loc(c))
+    rep.check(nlook >= 2, "lookup-defaults-found", "%d defaulted lookups of analysis results" % nlook)
+    # derive: the set conversion drops exactly the bottom value
+    acd = prog.fn("ir::analysis::derive::as_cannot_derive_set")
+    if acd is not None and "CannotDerive" in bottoms:
+        dropped = None
+        for n in acd.walk():
+            if n["k"] == "If" and strip(n["cond"]).get("k") == "Binary" and strip(n["cond"])["op"] == "==":
+                then = acd.canon(n["then"], 3)
+                if "None" in then:
+                    c = strip(n["cond"])
+                    dropped = [acd.canon(x, 2) for x in (c["l"], c["r"]) if "CanDerive::" in acd.canon(x, 2)]
+        rep.check(dropped == [bottoms["CannotDerive"]], "cannot-derive-set-drops-bottom",
+                  "as_cannot_derive_set drops exactly the entries equal to the bottom `%s` (found %s)" % (bottoms["CannotDerive"], dropped), acd.loc(acd.root))
